@@ -598,6 +598,12 @@ func (c *SpecCtx) call(e *SExpr) Val {
 				}
 			case *types.Array:
 				return intVal(IntLit(u.Len()))
+			case *types.Map:
+				_, d := c.st.mapDom(x)
+				dom := Select(d, x.C[0])
+				fn := "maplen$" + sanitize(string(dom.sort))
+				DeclareFun(fn, []Sort{dom.sort}, SInt)
+				return intVal(App(fn, SInt, dom))
 			}
 			c.fail("len of %v", x.T)
 		case "cap":
